@@ -19,7 +19,7 @@ import (
 func init() { Registry["C15"] = checkC15 }
 
 func checkC15(p *core.Prog, r *core.Report) {
-	r.Explanation = "Decides structural necessary conditions of the atomic-register behaviour: (R1) on every path of Lock/UnLock/wakeUpWaitLock that applies a value operation (ProcessLockData) and then answers, the reply's value argument is a GetLockData() result obtained before the operation, inside the same shard-mutex section; (R2) refusal replies are reached without ProcessLockData/ProcessRecoverLockData on the path; (R3) the operation switches of ProcessLockData and ProcessRecoverLockData have a case for every LOCK_DATA_COMMAND_TYPE_* constant; (R4) the Redis-style command names are registered identically in the leader and follower text protocols and in the converter; (R5) published value frames are immutable: no element store, copy destination or append base in the value-operation code derives from the manager's current frame (replies, undo records and the log still reference it). (R6) the pre-operation value kept for a pending request (LockData.recoverData) is read before the call that clears it, never after. (R7) the Redis-style result writers answer with an error line only on a path where the engine's result code was tested non-zero (an applied operation is never reported as refused). (R8) the data frame a binary request carries is a private buffer: Stream.ReadBytesFrame returns only freshly made slices and the decoder adopts only those (the value operations keep the frame as the stored value). (R9) on a grant that adds a holder the key's depth is incremented before the request's value operation runs (the operation reads the depth for first/last-holder-only operations). (R10) no comparison mixes the request-type enumeration with the value-operation enumeration (one does: known finding, PIPELINE). NOT decided: the byte surgery of each operation, numeric overflow, the Redis-style answers."
+	r.Explanation = "Decides structural necessary conditions of the atomic-register behaviour: (R1) on every path of Lock/UnLock/wakeUpWaitLock that applies a value operation (ProcessLockData) and then answers, the reply's value argument is a GetLockData() result obtained before the operation, inside the same shard-mutex section; (R2) refusal replies are reached without ProcessLockData/ProcessRecoverLockData on the path; (R3) the operation switches of ProcessLockData and ProcessRecoverLockData have a case for every LOCK_DATA_COMMAND_TYPE_* constant; (R4) the Redis-style command names are registered identically in the leader and follower text protocols and in the converter; (R5) published value frames are immutable: no element store, copy destination or append base in the value-operation code derives from the manager's current frame (replies, undo records and the log still reference it). (R6) the pre-operation value kept for a pending request (LockData.recoverData) is read before the call that clears it, never after. (R7) the Redis-style result writers answer with an error line only on a path where the engine's result code was tested non-zero (an applied operation is never reported as refused). (R8) the data frame a binary request carries is a private buffer: Stream.ReadBytesFrame returns only freshly made slices and the decoder adopts only those (the value operations keep the frame as the stored value). (R9) on a grant that adds a holder the key's depth is incremented before the request's value operation runs (the operation reads the depth for first/last-holder-only operations). (R10) no comparison mixes the request-type enumeration with the value-operation enumeration (one does: known finding, PIPELINE). (R11) every value frame the value-operation code or a codec allocates and hands on as a frame has its own length minus four stored in its first four bytes before the hand-over. NOT decided: the rest of the byte surgery of each operation, numeric overflow, the Redis-style answers."
 	r.Assumptions = []string{"Go type checker and go/ssa are correct for /repo", "GetLockData returns the current frame without copying (so R5 matters)"}
 	c15R1(p, r)
 	c15R2(p, r)
@@ -31,6 +31,7 @@ func checkC15(p *core.Prog, r *core.Report) {
 	c15R8(p, r)
 	c15R9(p, r)
 	c15R10(p, r)
+	c15R11(p, r)
 }
 
 func c15R1(p *core.Prog, r *core.Report) {
@@ -959,4 +960,447 @@ func constDomain(name string) string {
 		return "request type"
 	}
 	return ""
+}
+
+// c15R11: a value frame is (length:4 little-endian) (op) (flags) [properties]
+// payload, and the frame is what replies, SHOW queries, the log and
+// replication carry verbatim. Every frame the value-operation code or a codec
+// allocates and hands on as a frame must therefore announce, in its first
+// four bytes, exactly its own length minus the four header bytes - decided on
+// the allocation itself (make(L+4) / a byte literal of N elements) and the
+// stores into elements 0..3 that dominate the hand-over.
+func c15FrameFields() map[core.FieldKey]bool {
+	return map[core.FieldKey]bool{
+		fk("protocol.LockCommandData", "Data"):       true,
+		fk("protocol.LockResultCommandData", "Data"): true,
+		fk("server.LockManagerData", "data"):         true,
+	}
+}
+
+// c15FrameParams: function -> parameter indexes (ssa Params order) that are
+// adopted as a frame (stored into a frame field directly or through another
+// adopting function).
+func c15FrameParams(p *core.Prog) map[*ssa.Function]map[int]bool {
+	fields := c15FrameFields()
+	out := map[*ssa.Function]map[int]bool{}
+	var fns []*ssa.Function
+	for _, rel := range []string{"protocol", "server"} {
+		fns = append(fns, p.FuncsIn(rel)...)
+	}
+	paramIdx := func(f *ssa.Function, v ssa.Value) int {
+		for i, q := range f.Params {
+			if q == v {
+				return i
+			}
+		}
+		return -1
+	}
+	for changed := true; changed; {
+		changed = false
+		for _, f := range fns {
+			for _, b := range f.Blocks {
+				for _, ins := range b.Instrs {
+					mark := func(v ssa.Value) {
+						if i := paramIdx(f, v); i >= 0 {
+							if out[f] == nil {
+								out[f] = map[int]bool{}
+							}
+							if !out[f][i] {
+								out[f][i] = true
+								changed = true
+							}
+						}
+					}
+					switch s := ins.(type) {
+					case *ssa.Store:
+						if fa, ok := s.Addr.(*ssa.FieldAddr); ok && fields[core.FieldKeyOf(fa.X.Type(), fa.Field)] {
+							mark(s.Val)
+						}
+					case ssa.CallInstruction:
+						c := core.StaticCallee(ins)
+						if c == nil || out[c] == nil {
+							continue
+						}
+						args := s.Common().Args
+						for i := range out[c] {
+							if i < len(args) {
+								mark(args[i])
+							}
+						}
+					}
+				}
+			}
+		}
+	}
+	return out
+}
+
+// c15ByteOf recognises byte(L >> 8k) / byte(L) / byte(uint32(L) >> 8k) and
+// returns (L, k).
+func c15StripConv(x ssa.Value) ssa.Value {
+	for {
+		c, ok := x.(*ssa.Convert)
+		if !ok {
+			return x
+		}
+		if b, ok := c.X.Type().Underlying().(*types.Basic); !ok || b.Info()&types.IsInteger == 0 {
+			return x
+		}
+		x = c.X
+	}
+}
+
+func c15ByteOf(v ssa.Value) (ssa.Value, int, bool) {
+	cv, ok := v.(*ssa.Convert)
+	if !ok {
+		return nil, 0, false
+	}
+	strip := c15StripConv
+	x := strip(cv.X)
+	if bo, ok := x.(*ssa.BinOp); ok && bo.Op == token.SHR {
+		if c, ok := strip(bo.Y).(*ssa.Const); ok && c.Value != nil {
+			if n, ok := constant.Int64Val(constant.ToInt(c.Value)); ok && n%8 == 0 && n >= 0 && n <= 24 {
+				return strip(bo.X), int(n / 8), true
+			}
+		}
+		return nil, 0, false
+	}
+	return x, 0, true
+}
+
+// c15HelperHeader: does fn store byte(L>>8k) into elements 0..3 of its
+// parameter i on every path to its returns? Returns L (a parameter of fn) or
+// own = true when L is len(parameter i) - 4.
+func c15HelperHeader(fn *ssa.Function, i int) (ssa.Value, bool, bool) {
+	var l ssa.Value
+	seen := 0
+	for _, u := range *fn.Params[i].Referrers() {
+		a, ok := u.(*ssa.IndexAddr)
+		if !ok {
+			continue
+		}
+		k, ok := constIntOf(a.Index)
+		if !ok || k < 0 || k > 3 {
+			continue
+		}
+		for _, uu := range *a.Referrers() {
+			st, ok := uu.(*ssa.Store)
+			if !ok || st.Addr != a {
+				continue
+			}
+			v, kk, ok := c15ByteOf(st.Val)
+			if !ok || kk != int(k) || (l != nil && l != v) {
+				return nil, false, false
+			}
+			for _, b := range fn.Blocks {
+				if len(b.Instrs) == 0 {
+					continue
+				}
+				if _, isRet := b.Instrs[len(b.Instrs)-1].(*ssa.Return); isRet && b != st.Block() && !st.Block().Dominates(b) {
+					return nil, false, false
+				}
+			}
+			l = v
+			seen |= 1 << uint(k)
+		}
+	}
+	if seen != 15 || l == nil {
+		return nil, false, false
+	}
+	if bo, ok := l.(*ssa.BinOp); ok && bo.Op == token.SUB {
+		if c, ok := constIntOf(bo.Y); ok && c == 4 {
+			if call, ok := bo.X.(*ssa.Call); ok {
+				if b, ok := call.Call.Value.(*ssa.Builtin); ok && b.Name() == "len" && len(call.Call.Args) == 1 && call.Call.Args[0] == fn.Params[i] {
+					return nil, true, true
+				}
+			}
+		}
+	}
+	for _, q := range fn.Params {
+		if q == l {
+			return l, false, true
+		}
+	}
+	return nil, false, false
+}
+
+func constIntOf(v ssa.Value) (int64, bool) {
+	c, ok := v.(*ssa.Const)
+	if !ok || c.Value == nil || c.Value.Kind() != constant.Int {
+		return 0, false
+	}
+	return constant.Int64Val(c.Value)
+}
+
+func instrDominates(a, b ssa.Instruction) bool {
+	if a.Block() == b.Block() {
+		for _, ins := range a.Block().Instrs {
+			if ins == a {
+				return true
+			}
+			if ins == b {
+				return false
+			}
+		}
+		return false
+	}
+	return a.Block().Dominates(b.Block())
+}
+
+func c15R11(p *core.Prog, r *core.Report) {
+	const rule = "C15/R11"
+	r.Rule(rule, "every value frame allocated by the value-operation code or a codec and handed on as a frame stores, before the hand-over, its own length minus four in its first four bytes (little-endian)", 10)
+	fields := c15FrameFields()
+	adopt := c15FrameParams(p)
+	isByteSlice := func(t types.Type) bool {
+		s, ok := t.Underlying().(*types.Slice)
+		if !ok {
+			return false
+		}
+		b, ok := s.Elem().Underlying().(*types.Basic)
+		return ok && b.Kind() == types.Uint8
+	}
+	var fns []*ssa.Function
+	for _, rel := range []string{"protocol", "server"} {
+		fns = append(fns, p.FuncsIn(rel)...)
+	}
+	sort.Slice(fns, func(i, j int) bool { return core.FuncName(fns[i]) < core.FuncName(fns[j]) })
+	total := 0
+	for _, f := range fns {
+		if f.Blocks == nil {
+			continue
+		}
+		ord := 0
+		for _, b := range f.Blocks {
+			for _, ins := range b.Instrs {
+				var frame ssa.Value   // the slice handed on
+				var base ssa.Value    // what element addresses are taken of
+				var lenV ssa.Value    // L with size == L+4 (make)
+				constLen := int64(-1) // literal size
+				switch m := ins.(type) {
+				case *ssa.MakeSlice:
+					if !isByteSlice(m.Type()) {
+						continue
+					}
+					frame, base = m, m
+					if bo, ok := m.Len.(*ssa.BinOp); ok && bo.Op == token.ADD {
+						if c, ok := constIntOf(bo.Y); ok && c == 4 {
+							lenV = c15StripConv(bo.X)
+						} else if c, ok := constIntOf(bo.X); ok && c == 4 {
+							lenV = c15StripConv(bo.Y)
+						}
+					} else if c, ok := constIntOf(m.Len); ok {
+						constLen = c
+					}
+				case *ssa.Slice:
+					al, ok := m.X.(*ssa.Alloc)
+					if !ok || m.Low != nil || m.High != nil || !isByteSlice(m.Type()) {
+						continue
+					}
+					arr, ok := al.Type().Underlying().(*types.Pointer).Elem().Underlying().(*types.Array)
+					if !ok {
+						continue
+					}
+					frame, base, constLen = m, al, arr.Len()
+				default:
+					continue
+				}
+				// hand-over sites
+				var sinks []ssa.Instruction
+				for _, u := range *frame.Referrers() {
+					switch s := u.(type) {
+					case *ssa.Store:
+						if fa, ok := s.Addr.(*ssa.FieldAddr); ok && s.Val == frame && fields[core.FieldKeyOf(fa.X.Type(), fa.Field)] {
+							sinks = append(sinks, u)
+						}
+					case ssa.CallInstruction:
+						c := core.StaticCallee(u)
+						if c == nil || adopt[c] == nil {
+							continue
+						}
+						for i := range adopt[c] {
+							if args := s.Common().Args; i < len(args) && args[i] == frame {
+								sinks = append(sinks, u)
+							}
+						}
+					}
+				}
+				if len(sinks) == 0 {
+					continue
+				}
+				ord++
+				total++
+				key := fmt.Sprintf("%s: frame allocation #%d", core.FuncName(f), ord)
+				pos := p.InstrPos(ins)
+				// header stores
+				type hdr struct {
+					st  *ssa.Store
+					l   ssa.Value
+					c   int64
+					isC bool
+					ok  bool
+				}
+				var hs [4][]hdr
+				helperWrites := false
+				for _, u := range *base.Referrers() {
+					switch a := u.(type) {
+					case *ssa.IndexAddr:
+						k, ok := constIntOf(a.Index)
+						if !ok || k < 0 || k > 3 {
+							continue
+						}
+						for _, uu := range *a.Referrers() {
+							st, ok := uu.(*ssa.Store)
+							if !ok || st.Addr != a {
+								continue
+							}
+							h := hdr{st: st}
+							if c, ok := constIntOf(st.Val); ok {
+								h.c, h.isC, h.ok = c, true, true
+							} else if l, kk, ok := c15ByteOf(st.Val); ok && kk == int(k) {
+								h.l, h.ok = l, true
+							}
+							hs[k] = append(hs[k], h)
+						}
+					case ssa.CallInstruction:
+						// a helper (or encoding/binary) that writes the header
+						c := core.StaticCallee(u)
+						if c == nil || adopt[c] != nil {
+							continue
+						}
+						if c.Name() == "PutUint32" && c.Pkg != nil && c.Pkg.Pkg.Path() == "encoding/binary" {
+							helperWrites = true
+						}
+					}
+				}
+				// binary.LittleEndian.PutUint32(buf[0:4], uint32(L)) and in-module header helpers
+				var putL ssa.Value
+				var putAt ssa.Instruction
+				for _, u := range *base.Referrers() {
+					sl, ok := u.(*ssa.Slice)
+					if !ok {
+						continue
+					}
+					if sl.Low != nil {
+						if c, ok := constIntOf(sl.Low); !ok || c != 0 {
+							continue
+						}
+					}
+					for _, uu := range *sl.Referrers() {
+						ci, ok := uu.(ssa.CallInstruction)
+						if !ok {
+							continue
+						}
+						c := core.StaticCallee(uu)
+						if c != nil && c.Name() == "PutUint32" && c.Pkg != nil && c.Pkg.Pkg.Path() == "encoding/binary" && strings.Contains(c.String(), "ittleEndian") {
+							args := ci.Common().Args
+							v := args[len(args)-1]
+							for {
+								cv, ok := v.(*ssa.Convert)
+								if !ok {
+									break
+								}
+								v = cv.X
+							}
+							putL, putAt = v, uu
+						}
+					}
+				}
+				_ = helperWrites
+				// an in-module helper that stores the header of its parameter
+				selfLen := false
+				if putAt == nil {
+					for _, u := range *base.Referrers() {
+						ci, ok := u.(ssa.CallInstruction)
+						if !ok {
+							continue
+						}
+						c := core.StaticCallee(u)
+						if c == nil || adopt[c] != nil || c.Blocks == nil || !core.InModule(c) {
+							continue
+						}
+						args := ci.Common().Args
+						for i, a := range args {
+							if a != base || i >= len(c.Params) {
+								continue
+							}
+							if l, own, ok := c15HelperHeader(c, i); ok {
+								putAt = u
+								if own {
+									selfLen = true
+								} else {
+									for j, q := range c.Params {
+										if q == l && j < len(args) {
+											putL = c15StripConv(args[j])
+										}
+									}
+								}
+							}
+						}
+					}
+				}
+				for _, sink := range sinks {
+					skey := key
+					if len(sinks) > 1 {
+						skey = fmt.Sprintf("%s, hand-over at %s", key, eventLabel(sink))
+					}
+					if putAt != nil && instrDominates(putAt, sink) {
+						switch {
+						case selfLen:
+							r.Hold(rule, skey, pos, "header written by a helper as len(frame)-4 before the hand-over")
+						case putL == nil:
+							r.Violate(rule, skey, pos, "the helper that writes the frame's length header takes the length from a value this rule cannot relate to the allocation", nil)
+						case lenV != nil && c15StripConv(putL) == lenV:
+							r.Hold(rule, skey, pos, "header written with PutUint32(length) before the hand-over; allocation is length+4")
+						case constLen >= 0:
+							if c, ok := constIntOf(putL); ok && c == constLen-4 {
+								r.Hold(rule, skey, pos, "constant header equals size-4")
+							} else {
+								r.Violate(rule, skey, pos, "the frame's length header is not its allocated size minus four", nil)
+							}
+						default:
+							r.Violate(rule, skey, pos, "the frame's length header (PutUint32) is not the length the allocation was sized by: allocation is not <that length>+4", nil)
+						}
+						continue
+					}
+					missing, wrong := "", ""
+					for k := 0; k < 4; k++ {
+						found := false
+						for _, h := range hs[k] {
+							if !instrDominates(h.st, sink) {
+								continue
+							}
+							found = true
+							switch {
+							case !h.ok:
+								wrong = fmt.Sprintf("byte %d is not byte(length>>%d)", k, 8*k)
+							case h.isC && constLen >= 0:
+								if h.c != ((constLen-4)>>(8*uint(k)))&0xff {
+									wrong = fmt.Sprintf("byte %d is %d, the frame has %d bytes after the header", k, h.c, constLen-4)
+								}
+							case h.isC:
+								wrong = fmt.Sprintf("byte %d is the constant %d in a frame of variable length", k, h.c)
+							case lenV == nil || h.l != lenV:
+								wrong = fmt.Sprintf("byte %d announces a length that is not the one the allocation was sized by (size = length+4)", k)
+							}
+						}
+						if !found {
+							missing += fmt.Sprintf(" %d", k)
+						}
+					}
+					switch {
+					case missing != "":
+						r.Violate(rule, skey, pos, "the frame is handed on ("+eventLabel(sink)+" at "+p.InstrPos(sink)+") without a store to header byte(s)"+missing+" on every path before it: it announces a length that is not its own - replies, SHOW queries, the log and replication carry the frame verbatim", nil)
+					case wrong != "":
+						r.Violate(rule, skey, pos, "length header of the frame handed on at "+p.InstrPos(sink)+": "+wrong, nil)
+					default:
+						r.Hold(rule, skey, pos, "bytes 0..3 = little-endian(size-4) stored before the hand-over")
+					}
+				}
+			}
+		}
+	}
+	if total == 0 {
+		r.Fail("C15/R11: no frame allocation found")
+	}
 }
